@@ -323,6 +323,9 @@ func cvCall(n *SNode, c *CEnv) *CV {
 	if fn.Op == "field" {
 		recv := cvEval(fn.Args[0], c)
 		evalArgs()
+		if recv.K == "ctx" && fn.Name == "BlockTime" {
+			return cvBig(recv.I)
+		}
 		if recv.K == "int" {
 			switch fn.Name {
 			case "Unix":
